@@ -779,3 +779,58 @@ func H_C10_whole_file_handles() {
 	vAssert("no-handle-left-open-after-close", vOpenFiles() == 0)
 	vReach("end")
 }
+
+// vTwoPagePDF: a flat two-page document ("Page1 text" / "Page2 text") with a classic cross-reference table.
+func vTwoPagePDF() string {
+	w := &vPDFWriter{eol: "\n", offsets: map[int]int{}}
+	w.write("%PDF-1.4\n")
+	w.obj(1, "<< /Type /Catalog /Pages 2 0 R >>")
+	w.obj(2, "<< /Type /Pages /Kids [4 0 R 5 0 R] /Count 2 /Resources << /Font << /F1 6 0 R >> >> /MediaBox [0 0 612 792] >>")
+	w.obj(4, "<< /Type /Page /Parent 2 0 R /Contents 10 0 R >>")
+	w.obj(5, "<< /Type /Page /Parent 2 0 R /Contents 12 0 R >>")
+	w.obj(6, "<< /Type /Font /Subtype /Type1 /BaseFont /Helvetica /Encoding /WinAnsiEncoding >>")
+	for i, n := range []int{10, 12} {
+		data := "BT /F1 12 Tf 72 720 Td (Page" + strconv.Itoa(i+1) + " text) Tj ET"
+		w.stream(n, "/Length "+strconv.Itoa(len(data)), data)
+	}
+	w.xref(false, false, -1, []int{1, 2, 4, 5, 6, 10, 12}, nil, 30, 31, 32)
+	return string(w.buf)
+}
+
+// H_C10_derived_extractors_on_an_open_base: using an extractor derived from a base that has already opened the file
+// (by a non-terminal call) changes nothing for the base or for its other derivations.
+//
+//symgo:harness prop=C10 kernel=K7-derived-from-open-base
+//symgo:desc two-page PDF from the harness-local writer through the file content and file-handle models; the base extractor first runs a non-terminal operation (PageCount, IsMultiColumn, IsCharacterLevel, or none; enumerated), then base.Pages(1).Text(), base.Pages(2).Text() (or in the other order; enumerated), then base.Text(): every call succeeds and returns exactly its own pages; base.Close() and a second Close() return without panic and leave zero handles open
+func H_C10_derived_extractors_on_an_open_base() {
+	name := "/tmp/symgo-replay-c10b.pdf"
+	vFileContent(name, vTwoPagePDF())
+	base := Open(name)
+	switch vAnyIntIn(0, 3) {
+	case 0:
+		n, err := base.PageCount()
+		vAssert("page-count", err == nil && n == 2)
+	case 1:
+		_, err := base.IsMultiColumn()
+		vAssert("is-multi-column-no-error", err == nil)
+	case 2:
+		_, err := base.IsCharacterLevel()
+		vAssert("is-character-level-no-error", err == nil)
+	}
+	order := []int{1, 2}
+	if vAnyIntIn(0, 1) == 1 {
+		order = []int{2, 1}
+	}
+	for _, p := range order {
+		txt, _, err := base.Pages(p).Text()
+		vAssert("derived-text-no-error", err == nil)
+		vAssert("derived-text-is-its-own-page", strings.Contains(txt, "Page"+strconv.Itoa(p)+" text") && !strings.Contains(txt, "Page"+strconv.Itoa(3-p)+" text"))
+	}
+	all, _, err := base.Text()
+	vAssert("base-text-no-error", err == nil)
+	vAssert("base-text-has-both-pages", strings.Contains(all, "Page1 text") && strings.Contains(all, "Page2 text"))
+	vAssert("first-close-reports-no-error", base.Close() == nil)
+	_ = base.Close()
+	vAssert("no-handle-left-open", vOpenFiles() == 0)
+	vReach("end")
+}
